@@ -4,6 +4,8 @@ CONSTANTS
   DirNames <- DirsQuick
   MaxMembers = 2
   GlobClasses <- AllClasses
+  MinReq = 1
+  MaxReq = 1
   Emit = TRUE
 INVARIANTS Confined NeverHostile DistinctTargets ExactMatchesItself EmitScn
 CHECK_DEADLOCK FALSE
